@@ -83,7 +83,7 @@ pub struct Layout {
     #[serde(default)]
     pub extra_attrs: u8,
     /// documentation (`DESC`) on elements whose description is not part of the model: bit 0 codings, bit 1 signals,
-    /// bit 2 frames, bit 3 project and ECU; bit 4: codings also carry a PHYSICAL-TYPE next to their CODED-TYPE
+    /// bit 2 frames, bit 3 project and ECU; bit 4: codings also carry a PHYSICAL-TYPE next to their CODED-TYPE; bit 5: instance ids are spelled like the element they refer to
     #[serde(default)]
     pub foreign_desc: u8,
 }
@@ -607,7 +607,8 @@ pub fn render(m: &Model, l: &Layout) -> Vec<String> {
                             .enumerate()
                         {
                             let it = format!("{}SIGNAL-INSTANCE", st.fx);
-                            w.open(&it, &id_attr(l, &format!("SI_{}_{}", p.id, k)));
+                            let inst = if l.foreign_desc & 32 != 0 { r.clone() } else { format!("SI_{}_{}", p.id, k) };
+                            w.open(&it, &id_attr(l, &inst));
                             if k % 2 == 0 {
                                 w.leaf(&format!("{}SEQUENCE-NUMBER", st.fx), &seq.to_string());
                                 w.reference(&format!("{}SIGNAL-REF", st.fx), r, st.pairs);
@@ -671,7 +672,10 @@ pub fn render(m: &Model, l: &Layout) -> Vec<String> {
                             .enumerate()
                         {
                             let it = format!("{}PDU-INSTANCE", st.fx);
-                            w.open(&it, &id_attr(l, &format!("PI_{}_{}", f.id, k)));
+                            // (instance ids: numbered per frame, or — the convention of the crate's sample file — spelled like
+                            // the element they refer to, so that they repeat when a PDU is used twice)
+                            let inst = if l.foreign_desc & 32 != 0 { r.clone() } else { format!("PI_{}_{}", f.id, k) };
+                            w.open(&it, &id_attr(l, &inst));
                             if k % 2 == 0 {
                                 w.reference(&format!("{}PDU-REF", st.fx), r, st.pairs);
                                 w.leaf(&format!("{}SEQUENCE-NUMBER", st.fx), &seq.to_string());
@@ -927,7 +931,7 @@ pub fn layout() -> BoxedStrategy<Layout> {
         prop::bool::weighted(0.3),
         prop::bool::weighted(0.25),
         prop_oneof![3 => Just(0u8), 1 => 1u8..4, 1 => 4u8..16],
-        prop_oneof![2 => Just(0u8), 1 => 1u8..32],
+        prop_oneof![2 => Just(0u8), 1 => 1u8..64],
     )
         .prop_map(
             |(
